@@ -7,13 +7,12 @@ the codes `tri j + q` of the neighbours of `order[j]` that sit at an earlier pos
 
 * `certPos nb o s` — this list, computed from the order `o` alone (positions via `List.idxOf`);
 * `VClean nb op`   — `CleanPrefix`, `value` well formed and `value.toList = certPos nb order spl`;
-* `VStale nb cb fl op` — the state after `expandValue` has reported "worse" (it returns without recording how far it got):
-  `value.toList = certPos nb order spl ++ extra` with `extra` consisting of codes of positions `≥ spl`, and the
-  certificate is *poisoned*: every extension of it is again reported worse by `worseTest` (`Poisoned`);
-* `VAny` = clean or stale; `VN` = clean, or stale with bin `spl` not a singleton (the state after the following `deage`).
+* `VStale nb cb fl op` — the state after `expandValue` has reported "worse" (since fix 0bfbb07 it records how far it
+  got: `spl := j + 1`): `value.toList = certPos nb order spl` for a singleton prefix that need not end at a non-singleton bin;
+* `VAny` = clean, or `VStale` with a prefix divider of the current age (`StaleAge`); `VN` = clean.
 
-Stale entries are removed by the `deage` that undoes the split of a bin in front of `spl` (it truncates `value` after its
-last entry `< tri j`).
+The `deage` that undoes the split of a prefix bin truncates `value` after its last entry `< tri j` and makes the state
+clean again.
 -/
 namespace CanonF
 
@@ -34,46 +33,32 @@ structure VClean (nb : Nbrs) (op : OP) : Prop where
   wf : op.value.WF
   val : op.value.toList = certPos nb op.order.toList op.spl
 
-/-- every extension of `value` is reported worse -/
-def Poisoned (cb fl : Sl Nat) (value : Sl Nat) : Prop :=
-  ∀ v' : Sl Nat, (∃ t, v'.toList = value.toList ++ t) → ∀ b, worseTest v' cb fl = .ok b → b = true
-
+/-- the state after `expandValue` has reported "worse": it now records how far it got (`spl := j + 1`), so `value` is
+again the certificate of the singleton prefix, but the prefix need not end at a non-singleton bin (`cb`, `fl` are unused;
+kept for uniform signatures) -/
 structure VStale (nb : Nbrs) (cb fl : Sl Nat) (op : OP) : Prop where
   pre : PrefixSingle op
   wf : op.value.WF
-  val : ∃ extra, op.value.toList = certPos nb op.order.toList op.spl ++ extra ∧ ∀ x ∈ extra, tri op.spl ≤ x
-  poisoned : Poisoned cb fl op.value
-  lt : op.spl < op.order.len
+  val : op.value.toList = certPos nb op.order.toList op.spl
 
-/-- if bin `spl` is a singleton (the state right after `expandValue` reported "worse"), its divider was created at the
-current age, so that the next `deage` removes it -/
-def StaleAge (op : OP) : Prop :=
-  op.binDividers.toList[op.spl]? = some (op.spl + 1) → op.binAges.toList[op.spl]? = some op.age
+/-- some divider inside the singleton prefix was created at the current age, so that the next `deage` merges a prefix
+bin and truncates the certificate -/
+def StaleAge (op : OP) : Prop := ∃ k d, k < op.spl ∧ (divs op)[k]? = some (d, op.age)
 
-/-- clean or stale -/
+/-- clean, or (after a "worse") a prefix certificate that the next `deage` will cut back -/
 def VAny (nb : Nbrs) (cb fl : Sl Nat) (op : OP) : Prop := VClean nb op ∨ (VStale nb cb fl op ∧ StaleAge op)
 
-/-- clean, or stale with bin `spl` not a singleton (the state after the `deage` that follows a "worse") -/
-def VN (nb : Nbrs) (cb fl : Sl Nat) (op : OP) : Prop :=
-  VClean nb op ∨ (VStale nb cb fl op ∧ op.binDividers.toList[op.spl]? ≠ some (op.spl + 1))
+/-- the state after a `deage` / before a `splitBin`: clean -/
+def VN (nb : Nbrs) (_cb _fl : Sl Nat) (op : OP) : Prop := VClean nb op
 
-theorem VN.any {nb : Nbrs} {cb fl : Sl Nat} {op : OP} (h : VN nb cb fl op) : VAny nb cb fl op := by
-  rcases h with h | h
-  · exact Or.inl h
-  · exact Or.inr ⟨h.1, fun hc => absurd hc h.2⟩
+theorem VN.any {nb : Nbrs} {cb fl : Sl Nat} {op : OP} (h : VN nb cb fl op) : VAny nb cb fl op := Or.inl h
 
-/-- what `expandValue` does to a clean certificate (proved in `CanonFCertExpand.lean` as `expandValue_cert`) -/
+/-- what `expandValue` does to a certificate of a singleton prefix (proved in `CanonFCertExpand.lean` as
+`expandValue_cert`) -/
 def ExpandCert : Prop :=
   ∀ (n : Nat) (nb : Nbrs) (cb fl : Sl Nat) (op op' : OP) (w : Bool), PartInv n op → PrefixSingle op → op.value.WF →
     op.value.toList = certPos nb op.order.toList op.spl → expandValue nb cb fl op = .ok (w, op') →
-    (w = false → VClean nb op') ∧ (w = true → VStale nb cb fl op' ∧ op'.spl = op.spl)
-
-/-- `expandValue` on a stale certificate whose bin `spl` has just become a singleton reports "worse" again
-(proved in `CanonFCertExpand.lean` as `expandValue_stale`) -/
-def ExpandStale : Prop :=
-  ∀ (n : Nat) (nb : Nbrs) (cb fl : Sl Nat) (op op' : OP) (w : Bool), PartInv n op → VStale nb cb fl op →
-    op.binDividers.toList[op.spl]? = some (op.spl + 1) → expandValue nb cb fl op = .ok (w, op') →
-    w = true ∧ VStale nb cb fl op' ∧ op'.spl = op.spl
+    (w = false → VClean nb op') ∧ (w = true → VStale nb cb fl op' ∧ op.spl < op'.spl)
 
 /-! ### `certPos` depends only on the positions below `s` -/
 
